@@ -524,7 +524,7 @@ def check_shareddomain_case(case, ctx):
     (a1, t1), (a2, t2) = case["conds"]
     with symbolic_mode():
         y = let(c12.N, objs)
-        sub = an(entity(y, or_(getattr(y, a1) > t1, getattr(y, a2) == t2)))
+        sub = an(entity(y, or_(getattr(y, a1) > t1, getattr(y, a2) == t2), D.f_ok(y)))     # f_ok: always true, raises when armed
         x1 = let(c12.N, domain=sub)
         x2 = let(c12.N, domain=sub)
         queries = [an(entity(x1, x1.c > 0)), an(entity(x2, 0 < x2.b))]
@@ -536,7 +536,20 @@ def check_shareddomain_case(case, ctx):
         for step, op in enumerate(list(case["ops"]) + [["full", 0], ["full", 0], ["full", 0]]):
             qi = (step + len(op)) % 2 if step else 0
             # (complete evaluations only: a partly consumed domain keeps a suspended evaluation of the shared sub-query, and a second
-            #  variable over it would run interleaved with that one - two evaluations of shared expressions at once, DESIGN 7)
+            #  variable over it would run interleaved with that one - two evaluations of shared expressions at once, DESIGN 7;
+            #  an evaluation that user code ABORTS leaves nothing suspended: the predicate inside the sub-query raises at its k-th call)
+            if op[0] in ("take", "abandon", "drop"):
+                D.arm_fault(op[2])
+                try:
+                    for _ in queries[qi].evaluate():
+                        pass
+                    log.append([qi, "raise:not_reached"])
+                except D.Boom:
+                    log.append([qi, "raise"])
+                    ctx.cls("cls:twin:shareddomain_aborted_by_user_code")
+                finally:
+                    D.arm_fault(None)
+                continue
             got = sorted(idx.get(id(o), -1) for o in queries[qi].evaluate())
             log.append([qi, len(got)])
             if got != want[qi]:
